@@ -133,7 +133,7 @@ func genOffset(rt *rapid.T) *time.Time {
 
 func TestTimeParse(t *testing.T) {
 	sec := vk.Sec(t.Name())
-	vk.Check(t, 8000, 100000, func(rt *rapid.T) {
+	vk.Check(t, 20000, 200000, func(rt *rapid.T) {
 		c := timeCase{From: genTimeText(rt), Offset: genOffset(rt)}
 		settle(rt, sec, runTime(c), vk.FP("time", c.From))
 	})
